@@ -580,7 +580,55 @@ def rule_first_transaction(ctx: Ctx, rep: Report) -> None:
     rep.floor(rule, 4)
 
 
+TEXT_ENCODE_OK = {
+    ("btclib.mnemonic.slip39._round_function", "passphrase.encode()"): "both callers of _feistel run _assert_valid_passphrase first (printable ascii only)",
+}
+
+
+def rule_text_encode(ctx: Ctx, rep: Report) -> None:
+    """C19.text_encode: `str.encode()` raises UnicodeEncodeError on a lone
+    surrogate ("\\ud800"), which any caller-supplied str may hold. Where the
+    text being encoded comes from a parameter, the call is under a handler that
+    catches it (UnicodeError / ValueError), or behind an `isascii()` refusal."""
+    from sa.canon import expand
+    rule = "C19.text_encode"
+    n = 0
+    for q, fi in sorted(ctx.prog.functions.items()):
+        params = set(fi.params()) - {"self", "cls"}
+        for c in own_nodes(fi.node):
+            if not (isinstance(c, ast.Call) and isinstance(c.func, ast.Attribute) and c.func.attr == "encode" and not c.args and not c.keywords):
+                continue
+            recv = ast.parse(str(expand(fi, c.func.value)), mode="eval")
+            names = {x.id for x in ast.walk(recv) if isinstance(x, ast.Name)}
+            if not (names & params):
+                continue
+            n += 1
+            if (q, str(norm(c))) in TEXT_ENCODE_OK:
+                rep.ob(rule, f"{q}:{norm(c)[:50]}", True, fi.where(c), f"reviewed: {TEXT_ENCODE_OK[(q, str(norm(c)))]}")
+                continue
+            hs = _handlers_around(c)
+            g = ctx.cfg(fi)
+            guarded = bool(hs & {"ValueError", "UnicodeError", "UnicodeEncodeError", "Exception", "BaseException"}) or \
+                any("isascii()" in str(t) and p_ for t, p_ in g.facts_at_ast(c))
+            rep.ob(rule, f"{q}:{norm(c)[:50]}", guarded, fi.where(c), "under a handler / behind an ascii test" if guarded else
+                   f"`{norm(c)[:60]}` encodes caller-supplied text with no handler: a lone surrogate raises UnicodeEncodeError, which is not a library exception")
+    rep.floor(rule, 5)
+
+
+def _handlers_around(node: ast.AST) -> set[str]:
+    out: set[str] = set()
+    cur, p_ = node, parent(node)
+    while p_ is not None and not isinstance(p_, (ast.FunctionDef, ast.AsyncFunctionDef)):
+        if isinstance(p_, ast.Try) and any(cur is s_ for s_ in p_.body):
+            for h in p_.handlers:
+                ts = h.type.elts if isinstance(h.type, ast.Tuple) else [h.type] if h.type is not None else []
+                out |= {str(norm(t)).split(".")[-1] for t in ts} or {"BaseException"}
+        cur, p_ = p_, parent(p_)
+    return out
+
+
 RULES = [
+    ("C19.text_encode", rule_text_encode),
     ("C19.first_transaction", rule_first_transaction),
     ("C19.sized_int_siblings", rule_sized_int_siblings),
     ("C19.no_overread", rule_no_overread),
@@ -595,6 +643,8 @@ RULES = [
 ]
 
 CONTROLS = [
+    {"rule": "C19.text_encode", "name": "the nulldata text is encoded with no handler (F24)", "module": "btclib.script.script_pub_key",
+     "edit": lambda ctx: M.sub_expr(ctx, "btclib.script.script_pub_key.ScriptPubKey.nulldata", lambda n: isinstance(n, ast.Try) and "data.encode()" in norm(n), "data = data.encode()")},
     {"rule": "C19.first_transaction", "name": "witness_commitment indexes an empty block (F23)", "module": "btclib.block.block",
      "edit": lambda ctx: M.drop_if(ctx, "btclib.block.block.Block.witness_commitment", lambda n: norm(n.test) == "not self.transactions")},
     {"rule": "C19.no_overread", "name": "the trailing probe is read before `strict` is asked", "module": "btclib.ecc.dsa",
